@@ -1,6 +1,6 @@
 (* C12 — lemmas about the composed model of Features/Transform3.v. *)
 From Coq Require Import Ascii String.
-From Coq Require Import List NArith ZArith QArith Qreals Qround Reals Bool Arith Lia Lra ZifyBool.
+From Coq Require Import List NArith ZArith QArith Qreals Qround Reals Bool Arith Lia Lra ZifyBool DecimalN DecimalPos.
 From Outrank Require Import Features.Transform Features.Transform3 Features.TransformProofs.
 Import ListNotations.
 Local Close Scope R_scope.
@@ -503,7 +503,7 @@ Lemma keepQ_sound : forall (render : gval R -> str) (D : gval R -> Prop),
     /\ rendered_column render e xs = Some (map render vs)
     /\ (Forall D vs -> keep_spec (map render vs) = b).
 Proof.
-  intros render D Hf Hn e cells b H. unfold keepQ in H.
+  intros render D Hf Hn e cells b H. unfold keepQ, keepQ_parsed in H.
   destruct (parse_column OpsQ cells) as [xq|] eqn:Ep; [|discriminate].
   destruct (all_some (map (fun x => denQ e xq x) xq)) as [vq|] eqn:Ev; [|discriminate].
   injection H as <-. apply all_some_spec in Ev.
@@ -618,4 +618,180 @@ Proof.
     cbn [obind]. rewrite gcmp_fin. destruct (cmpR c u v); [eapply IHe3 | eapply IHe4]; eassumption.
   - destruct xs as [|y ys]; [discriminate|]. cbn [list_max] in H. injection H as <-.
     inversion Hxs; subst. cbn [gmaxl]. eexists; split; [reflexivity|]. apply gmax_fold_fin; assumption.
+Qed.
+
+(* ========================================================================================== *)
+(* the numeric parse agrees with Coq's own valuation of decimal numerals (N.of_uint)              *)
+Local Close Scope R_scope.
+
+Lemma dv_acc : forall l p, digits_val (Zpos p) (uint_codes l) = Zpos (Pos.of_uint_acc l p).
+Proof.
+  induction l; intros p; cbn [uint_codes digits_val Pos.of_uint_acc]; [reflexivity|..];
+    rewrite <- IHl; f_equal; cbn [Z.of_N]; rewrite ?Pos2Z.inj_add, ?Pos2Z.inj_mul; lia.
+Qed.
+
+Lemma dv_uint : forall l, digits_val 0 (uint_codes l) = Z.of_N (Pos.of_uint l).
+Proof.
+  induction l; cbn [uint_codes digits_val Pos.of_uint]; [reflexivity | exact IHl |..];
+    cbn [Z.of_N]; rewrite <- dv_acc; f_equal.
+Qed.
+
+Lemma uint_codes_digits : forall l, forallb is_digit (uint_codes l) = true.
+Proof. induction l; cbn [uint_codes forallb]; [reflexivity|..]; rewrite IHl; reflexivity. Qed.
+
+Lemma digit_not_blank : forall c, is_digit c = true -> is_blank c = false.
+Proof.
+  intros c H. unfold is_digit in H. apply andb_true_iff in H. destruct H as [H1 H2].
+  apply N.leb_le in H1. apply N.leb_le in H2. unfold is_blank.
+  rewrite !orb_false_iff, !andb_false_iff, !N.eqb_neq, !N.leb_gt. lia.
+Qed.
+
+Lemma drop_blanks_digit : forall c r, is_digit c = true -> drop_blanks (c :: r) = c :: r.
+Proof. intros c r H. cbn [drop_blanks]. rewrite (digit_not_blank c H). reflexivity. Qed.
+
+Lemma trim_digits : forall s, forallb is_digit s = true -> trim s = s.
+Proof.
+  intros s H. unfold trim.
+  assert (D : forall l, forallb is_digit l = true -> drop_blanks l = l).
+  { intros [|c r] Hl; [reflexivity|]. apply drop_blanks_digit. cbn [forallb] in Hl. apply andb_true_iff in Hl. tauto. }
+  rewrite (D s H). rewrite D; [apply rev_involutive|].
+  apply forallb_forall. intros x Hx. apply in_rev in Hx. rewrite forallb_forall in H. apply H. exact Hx.
+Qed.
+
+Lemma span_us_digits : forall s b, forallb is_digit s = true -> span_digits_us s b = Some (s, []).
+Proof.
+  induction s as [|c r IH]; intros b H; cbn [span_digits_us]; [reflexivity|].
+  cbn [forallb] in H. apply andb_true_iff in H. destruct H as [H1 H2]. rewrite H1, (IH true H2). reflexivity.
+Qed.
+
+Lemma parse_py_digits : forall c ds, forallb is_digit (c :: ds) = true ->
+  parse_py (c :: ds) = PVal (inject_Z (digits_val 0 (c :: ds))) false.
+Proof.
+  intros c ds H. unfold parse_py. rewrite (trim_digits _ H).
+  assert (Hc : is_digit c = true) by (cbn [forallb] in H; apply andb_true_iff in H; tauto).
+  assert (N1 : c <> 45%N) by (intros ->; discriminate Hc).
+  assert (N2 : c <> 43%N) by (intros ->; discriminate Hc).
+  assert (L : lower c = c).
+  { unfold lower. destruct (N.leb 65 c && N.leb c 90) eqn:E; [|reflexivity]. exfalso.
+    unfold is_digit in Hc. apply andb_true_iff in Hc. destruct Hc as [_ H2]. apply N.leb_le in H2.
+    apply andb_true_iff in E. destruct E as [E _]. apply N.leb_le in E. lia. }
+  assert (S1 : (let (neg, s1) := match c :: ds with
+                   | 45%N :: r => (true, r) | 43%N :: r => (false, r) | _ => (false, c :: ds) end in (neg, s1))
+               = (false, c :: ds)).
+  { destruct c as [|p]; [reflexivity|]. do 6 (destruct p as [p|p|]; try reflexivity); congruence. }
+  destruct c as [|p]; [discriminate Hc|].
+  do 6 (destruct p as [p|p|]; try discriminate Hc); try congruence;
+    cbn [map]; rewrite L; cbn [str_eqb s2l list_ascii_of_string map N_of_ascii N_of_digits N.eqb Pos.eqb andb orb];
+    rewrite (span_us_digits _ false H); cbn [is_nil andb exponent_us app length Z.of_nat Z.sub Z.leb Z.compare Z.opp];
+    rewrite app_nil_r; cbn [Z.pow Z.pow_pos Pos.iter Z.mul]; rewrite Z.mul_1_r; reflexivity.
+Qed.
+
+(* for every decimal numeral u (as Coq's own number notation reads it) *)
+Lemma parse_py_numeral : forall u, u <> Decimal.Nil ->
+  parse_py (uint_codes u) = PVal (inject_Z (Z.of_N (N.of_uint u))) false.
+Proof.
+  intros u Hu. pose proof (uint_codes_digits u) as D. pose proof (dv_uint u) as V.
+  destruct (uint_codes u) as [|c ds] eqn:E.
+  - destruct u; cbn in E; congruence.
+  - rewrite (parse_py_digits c ds D), V. reflexivity.
+Qed.
+
+Lemma parse_py_print : forall n, parse_py (dec n) = PVal (inject_Z (Z.of_N n)) false.
+Proof.
+  intros n. unfold dec. rewrite parse_py_numeral.
+  - rewrite DecimalN.Unsigned.of_to. reflexivity.
+  - destruct n as [|p]; [discriminate|]. cbn. intros H.
+    pose proof (DecimalPos.Unsigned.of_to p) as T. rewrite H in T. discriminate.
+Qed.
+
+(* ========================================================================================== *)
+(* doubles vs integers in the keep rule: any rounding of the quotient that is monotone and has    *)
+(* relative error at most 2^-53 decides k/n < 0.8 and k/n < 0.75 exactly as 5k < 4n and 4k < 3n,   *)
+(* for n < 2^50                                                                                  *)
+Local Open Scope R_scope.
+
+Section FloatThreshold.
+  Variable rn : R -> R.
+  Let u := / 2 ^ 53.
+  Hypothesis rn_mono : forall x y, x <= y -> rn x <= rn y.
+  Hypothesis rn_err : forall x, 0 <= x -> x * (1 - u) <= rn x <= x * (1 + u).
+
+  (* a / b is 4/5 or 3/4; k, n stand for integers: b*k < a*n gives b*k + 1 <= a*n *)
+  Lemma threshold_generic : forall (a b k n : R),
+    0 < a -> a <= b -> a <= 4 -> 0 <= k -> 0 < n -> n < 2 ^ 50 ->
+    (b * k < a * n -> b * k + 1 <= a * n) ->
+    (rn (k / n) < rn (a / b) <-> b * k < a * n).
+  Proof.
+    intros a b k n Ha Hab Ha4 Hk Hn Hbig Hint.
+    assert (Hb : 0 < b) by lra.
+    split.
+    - intros H. destruct (Rlt_le_dec (b * k) (a * n)) as [L|L]; [exact L|]. exfalso.
+      assert (Q : a / b <= k / n).
+      { unfold Rdiv. apply Rmult_le_reg_r with (r := b * n); [nra|].
+        replace (a * / b * (b * n)) with (a * n) by (field; lra).
+        replace (k * / n * (b * n)) with (b * k) by (field; lra). exact L. }
+      apply rn_mono in Q. lra.
+    - intros L. specialize (Hint L).
+      assert (P53 : 2 ^ 53 = 8 * 2 ^ 50) by (simpl; lra).
+      assert (P50 : 0 < 2 ^ 50) by (apply pow_lt; lra).
+      assert (U : 0 < u) by (unfold u; apply Rinv_0_lt_compat; apply pow_lt; lra).
+      assert (Un : 8 * u * n < 1).
+      { unfold u. rewrite P53. apply Rmult_lt_reg_r with (r := 2 ^ 50); [exact P50|].
+        replace (8 * / (8 * 2 ^ 50) * n * 2 ^ 50) with n by (field; lra). lra. }
+      assert (X : 0 <= k / n) by (unfold Rdiv; apply Rmult_le_pos; [lra | apply Rlt_le, Rinv_0_lt_compat; lra]).
+      assert (T : 0 <= a / b) by (unfold Rdiv; apply Rmult_le_pos; [lra | apply Rlt_le, Rinv_0_lt_compat; lra]).
+      destruct (rn_err (k / n) X) as [_ E1]. destruct (rn_err (a / b) T) as [E2 _].
+      apply Rle_lt_trans with (1 := E1). apply Rlt_le_trans with (2 := E2).
+      set (x := k / n) in *. set (t := a / b) in *.
+      assert (I : 0 < / (b * n)) by (apply Rinv_0_lt_compat; nra).
+      assert (G : x <= t - / (b * n)).
+      { unfold x, t. apply Rmult_le_reg_r with (r := b * n); [nra|].
+        replace (k / n * (b * n)) with (b * k) by (field; lra).
+        replace ((a / b - / (b * n)) * (b * n)) with (a * n - 1) by (field; lra). lra. }
+      assert (A1 : t <= 1).
+      { unfold t. apply Rmult_le_reg_r with (r := b); [lra|]. unfold Rdiv. rewrite Rmult_assoc, Rinv_l by lra. lra. }
+      (* u * (t + x) <= u * 2t = 2 a u / b < 1/(b n)  since 2 a u n <= 8 u n < 1 *)
+      assert (Tb : t * b = a) by (unfold t; field; lra).
+      assert (Un0 : 0 < u * n) by nra.
+      assert (Q : u * (2 * t) < / (b * n)).
+      { apply Rmult_lt_reg_r with (r := b * n); [nra|]. rewrite Rinv_l by nra.
+        replace (u * (2 * t) * (b * n)) with (2 * (u * n) * (t * b)) by ring. rewrite Tb. nra. }
+      assert (Xt : x <= t) by lra.
+      assert (Ux : u * x <= u * t) by nra.
+      lra.
+  Qed.
+
+  Lemma majority_threshold_exact : forall k n : Z, (0 <= k)%Z -> (0 < n)%Z -> (n < 2 ^ 50)%Z ->
+    (rn (IZR k / IZR n) < rn (4 / 5) <-> (5 * k < 4 * n)%Z).
+  Proof.
+    intros k n Hk Hn Hb.
+    assert (B : IZR n < 2 ^ 50).
+    { assert (E : 2 ^ 50 = IZR (2 ^ 50)%Z) by (rewrite (pow_IZR 2 50); reflexivity). rewrite E. apply IZR_lt. exact Hb. }
+    rewrite (threshold_generic 4 5 (IZR k) (IZR n)); try lra; try (apply IZR_le; lia); try (apply IZR_lt; lia); try exact B.
+    - rewrite <- !mult_IZR. split; [apply lt_IZR | apply IZR_lt].
+    - rewrite <- !mult_IZR. intros H. apply lt_IZR in H. rewrite <- plus_IZR. apply IZR_le. lia.
+  Qed.
+
+  Lemma nan_threshold_exact : forall k n : Z, (0 <= k)%Z -> (0 < n)%Z -> (n < 2 ^ 50)%Z ->
+    (rn (IZR k / IZR n) < rn (3 / 4) <-> (4 * k < 3 * n)%Z).
+  Proof.
+    intros k n Hk Hn Hb.
+    assert (B : IZR n < 2 ^ 50).
+    { assert (E : 2 ^ 50 = IZR (2 ^ 50)%Z) by (rewrite (pow_IZR 2 50); reflexivity). rewrite E. apply IZR_lt. exact Hb. }
+    rewrite (threshold_generic 3 4 (IZR k) (IZR n)); try lra; try (apply IZR_le; lia); try (apply IZR_lt; lia); try exact B.
+    - rewrite <- !mult_IZR. split; [apply lt_IZR | apply IZR_lt].
+    - rewrite <- !mult_IZR. intros H. apply lt_IZR in H. rewrite <- plus_IZR. apply IZR_le. lia.
+  Qed.
+End FloatThreshold.
+
+Lemma float_thresholds : forall rn : R -> R,
+  (forall x y, x <= y -> rn x <= rn y) ->
+  (forall x, 0 <= x -> x * (1 - / 2 ^ 53) <= rn x <= x * (1 + / 2 ^ 53)) ->
+  forall k n : Z, (0 <= k)%Z -> (0 < n)%Z -> (n < 2 ^ 50)%Z ->
+    (rn (IZR k / IZR n) < rn (4 / 5) <-> (5 * k < 4 * n)%Z)
+    /\ (rn (IZR k / IZR n) < rn (3 / 4) <-> (4 * k < 3 * n)%Z).
+Proof.
+  intros rn H1 H2 k n Hk Hn Hb. split.
+  - apply majority_threshold_exact; assumption.
+  - apply nan_threshold_exact; assumption.
 Qed.
